@@ -251,6 +251,15 @@ def field_stores(ctx: Ctx, c: Cls):
             for t in targets:
                 if isinstance(t, ast.Attribute) and isinstance(t.value, ast.Name) and t.value.id == selfname and n.value is not None:
                     yield m, n, t.attr, X.at(m, n.value), "attribute store"
+                elif isinstance(t, (ast.Tuple, ast.List)) and n.value is not None:
+                    # `self.a, self.b = x, y`
+                    from ..terms import _project
+
+                    vt = None
+                    for i, e in enumerate(t.elts):
+                        if isinstance(e, ast.Attribute) and isinstance(e.value, ast.Name) and e.value.id == selfname:
+                            vt = X.at(m, n.value) if vt is None else vt
+                            yield m, n, e.attr, _project(vt, (i,)), "attribute store"
         for call in calls_in(m):
             if not isinstance(call.func, ast.Attribute):
                 continue
@@ -267,6 +276,12 @@ def field_stores(ctx: Ctx, c: Cls):
                 t = X.at(m, call)
                 for k, v in t[3]:
                     if k == "**":
+                        # a dict display `{**dump, "field": value}`: its constant keys
+                        for dv in alts(v):
+                            if dv[0] == "dict":
+                                for kk, vv in dv[1]:
+                                    if kk[0] == "const" and isinstance(kk[1], str):
+                                        yield m, call, kk[1], vv, "model_construct(**)"
                         # values dict: look for update(...) keyword stores in its history
                         for s in ctx.X.closure(v):
                             if s[0] == "mut" and s[2] == "update" and s[3][0] == "call":
@@ -500,21 +515,25 @@ def _check_clamp(ctx: Ctx, res: RuleResult, c: Cls, fld: str, limit_attr: tuple[
 
 
 def _check_bound_order(ctx: Ctx, res: RuleResult, c: Cls) -> None:
+    """Some `raise` of an after-validator is reached exactly under `lower > upper` somewhere: its path condition
+    (enclosing tests and negated early exits) contains a positive literal built on that comparison."""
+    from ..util import bool_nnf, path_condition
+
     ok = False
     site = None
     for m in _after_validators(c):
         for r_ in nodes_in(m, ast.Raise):
-            cur = parent(r_)
-            while cur is not None and cur is not m.node:
-                if isinstance(cur, ast.If):
-                    ct = ctx.X.value_at(m, cur.test)
-                    for s in subterms(ct):
+            for t_, pol in path_condition(ctx, m, r_):
+                g_ = bool_nnf(t_ if pol else ("unary", "not", t_))
+                for it in (g_[1] if g_[0] == "and" else [g_]):
+                    if it[0] != "lit" or not it[2]:
+                        continue
+                    for s in ctx.X.closure(it[1]):
                         if s[0] == "cmp" and s[1] in (">", "<"):
                             lo, hi = (s[2], s[3]) if s[1] == ">" else (s[3], s[2])
                             if _derives_from_field(ctx, lo, "lower_bounds") and _derives_from_field(ctx, hi, "upper_bounds"):
                                 ok = True
                                 site = (m, r_)
-                cur = parent(cur)
     res.add(site[0] if site else None, site[1] if site else c.node, "a validator raises when any lower bound exceeds its upper bound", ok,
             "" if ok else "no `lower > upper` rejection found", construct=f"{c.name}: lower>upper rejected",
             where=None if site else f"{c.module.relpath}:{c.node.lineno}", fname=None if site else c.qualname)
